@@ -3,6 +3,7 @@ from harness.h_sim import G, R_TWO, R_THREE, META, FUNCTIONS
 
 PIN = {}
 ALG3 = ('queue', 'batch1', 'batch2')
+R_SINGLES = [(1, 3), (3, 7), (0, 1), (3, 6), (0, 1), (1, 2), (1, 2), (2, 2)]
 PIN_ROT = {'queue': 0, 'batch1': 1, 'batch2': 2}
 
 
@@ -13,7 +14,7 @@ def twin(spec):
     return t
 
 
-def timing_family(props, tier, three_shapes=('chain', 'join', 'relabel')):
+def timing_family(props, tier, three_shapes=('chain', 'join', 'relabel', 'free')):
     out = []
     for alg in ALG3:
         out.append(G('two', R_TWO, props, alg=alg))
@@ -36,11 +37,22 @@ def timing_family(props, tier, three_shapes=('chain', 'join', 'relabel')):
 def shards(tier, prop):
     props = [prop + '/']
     out = []
+    if prop == 'C11':
+        return [{'kind': 'py', 'module': 'vk.simh', 'fn': 'validate_fakepd', 'cond_timeout': 120, 'name': 'stub-validation:pandas'}]
     if prop in ('C12', 'C13', 'C19', 'C02', 'C03', 'C08'):
         out = timing_family(props, tier)
         if prop == 'C02':
             out += [G('two', R_TWO, props, alg=a) for a in ('reserve1', 'reserve2')]
+            out.append(G('singles', R_SINGLES, props, alg='batch3'))
+        if prop == 'C03':
+            # edge volumes that are not whole multiples of the bandwidth (fractional transfer times)
+            out += [G('two', [(0, 2), (1, 2), (1, 2), (0, 2), (0, 2), (1, 2), (2, 2), (6, 8)], props, alg=a, machines=[10, 20]) for a in ('queue', 'batch2')]
         out.append(G('delay', [(0, 2), (1, 2), (1, 2), (0, 2), (0, 2), (0, 2), (0, 2), (0, 1)], props, alg='batch1'))
+    elif prop in ('C06', 'C15'):
+        for alg in ('queue', 'batch2'):
+            out.append(G('two', [(0, 2), (1, 2), (1, 2), (0, 2), (0, 2), (1, 2), (2, 2), (6, 7)], props, alg=alg, machines=[10, 20]))
+            out.append(G('delay', [(0, 2), (1, 2), (1, 2), (0, 2), (0, 2), (0, 2), (0, 2), (0, 1)], props, alg=alg, vol=10))
+        out.append(G('three', R_THREE, props, alg='queue', shape='join'))
     elif prop == 'C17':
         RS = [(0, 2), (0, 2), (0, 2), (0, 2), (0, 2), (0, 2), (0, 2), (0, 2)]
         out.append(G('static', RS, props, alg='dynamic'))
@@ -49,6 +61,9 @@ def shards(tier, prop):
     elif prop == 'C01':
         for alg in ALG3:
             out.append(G('two', R_TWO, props, alg=alg))
+        # one-machine reservations that are released, then a later ingest that needs two machines
+        out.append(G('singles', R_SINGLES, props, alg='batch3'))
+        out.append(G('singles', R_SINGLES, props, alg='queue'))
         RS = [(0, 2), (0, 2), (0, 2), (0, 2), (0, 2), (0, 2), (0, 2), (0, 2)]
         out.append(G('static', RS, props, alg='dynamic'))
         out.append(G('static', RS, props, alg='greedy'))
@@ -65,6 +80,7 @@ def shards(tier, prop):
         # a user algorithm that reserves machines and leaves the release to the Scheduler
         out += [G('two', R_TWO, props, alg=a) for a in ('reserve1', 'reserve2')]
         out.append(G('three', R_THREE, props, alg='reserve2', shape='join'))
+        out.append(G('singles', R_SINGLES, props, alg='batch3'))
         out.append(G('delay', [(0, 2), (1, 2), (1, 2), (0, 2), (0, 2), (0, 2), (0, 2), (0, 1)], props, alg='queue'))
         for honest in (True, False):
             out.append(G('adv', [(0, 1), (1, 1), (0, 2), (-1, 2), (-1, 2), (-1, 2), (0, 2), (0, 0)], props, honest=honest))
@@ -72,13 +88,13 @@ def shards(tier, prop):
         out = [G('two', R_TWO, props, alg=a) for a in ALG3]
     if prop in ('C05', 'C07', 'C08'):
         timings = [[1, 2, 2, 1, 1], [0, 1, 2, 0, 1], [2, 2, 1, 1, 0]] if tier == 'quick' else \
-                  [[a, b, c, 1, 1] for a in (0, 1, 2) for b in (1, 2) for c in (1, 2)]
+                  [[1, 2, 2, 1, 1], [0, 1, 2, 0, 1], [2, 2, 1, 1, 0], [0, 2, 2, 2, 0]]
         for alg in ALG3:
             for tm in timings:
                 if tier == 'quick' and tm != timings[PIN_ROT[alg]]:
                     continue        # quick: one timing per algorithm; these traced shards are bug-hunting only unless they exhaust
                 out.append({'module': 'harness.h_sim', 'fn': 'sizes', 'pin': {'alg': alg, 'timing': tm, 'props': props},
-                            'cond_timeout': 75 if tier == 'quick' else 3000, 'path_timeout': 90})
+                            'cond_timeout': 75 if tier == 'quick' else 1500, 'path_timeout': 90})
     if prop == 'C05':
         out += timing_family(props, tier, three_shapes=('relabel', 'revjoin'))
         # machine shortage / ingest limit / simultaneous starts (concrete sizes, threshold not crossed)
@@ -86,5 +102,7 @@ def shards(tier, prop):
             out.append(G('two', [(0, 2), (1, 2), (1, 2), (0, 2), (0, 2), (1, 2), (1, 2), (5, 5)], props, alg=alg, machines=[10, 20], g1=2))
             out.append(G('three', R_THREE, props, alg=alg, shape='join', machines=[10, 20], max_ingest=1))
             out.append(G('three', R_THREE, props, alg=alg, shape='chain', max_ingest=2, ingest=[2, 1, 2]))
-    out.append(twin([o for o in out if o['fn'] == 'grid'][0]))
+    if prop in ('C04', 'C11', 'C12', 'C13'):
+        out.append({'kind': 'py', 'module': 'vk.simh', 'fn': 'validate_fakepd', 'cond_timeout': 120, 'name': 'stub-validation:pandas'})
+    out.append(twin([o for o in out if o.get('fn') == 'grid'][0]))
     return out
